@@ -37,7 +37,10 @@ SPEC = {
     # disagreement alone is reported without a failing input
     "disagreement_is_violation": False,
     "rule": "case = generated text (risky 12%: URL-like strings + trailing comments, commented-out assignments and strings with "
-            "`:=`/`=>`/`:` next to real assignments, lines that wrap, runs of 3-6 blank lines; valid programs 38%, mutated 22%, "
+            "`:=`/`=>`/`:` next to real assignments, lines that wrap, runs of 3-6 blank lines, every literal class of the lexer (TOD/DT/LTOD/LDT/T#, based numbers, typed "
+            "literals, strings with every special character) in VAR-block initialisers incl. multi-line and shuffled ones, "
+            "assignments, named call arguments and CASE labels; 1 text in 8 ends without a line terminator in a line with "
+            "characters outside the BMP, with range / on-type requests reaching it; valid programs 38%, mutated 22%, "
             "mixed comment/pragma/string lines 14%, token soup 11%, tiny 3%; LF/CRLF/mixed) x generated configuration (FormattingOptions, vendor profile via trust-lsp.toml, all "
             "eight client settings through random key aliases) x full + 1-2 ranges + 1-2 on-type positions + second "
             "formatting + web formatter twice; non-trivial = at least 3 non-trivia tokens and 2 lines; distinct = by hash of "
@@ -58,7 +61,8 @@ SPEC = {
     "assumptions": [
         "comments are compared after trimming trailing white space of line comments and reading CRLF as LF inside "
         "multi-line comments / pragmas (line-terminator normalisation is layout, not content)",
-        "LSP edits are applied with lines ending at '\\n' and UTF-16 columns (the server's own convention, C14)",
+        "LSP edits are applied the way an editor does (harness Editor, as in C14): UTF-16 code units on the editor's own "
+        "buffer, columns clamped to the line end, lines ending at LF / CR LF; the server's byte offsets are never trusted",
     ],
 }
 
